@@ -1,15 +1,18 @@
 """C14 — diagnostics point at the offending construct in the user's own file."""
 
 from props import C19
-THEOREM_MODULES = ["Hcl.Theorems.C14", "Hcl.Theorems.C14Render", "Hcl.Tie.PinsIo", "Hcl.Tie.PinsErrors"]
-THEOREMS = {"Hcl.Theorems.C14Render": ["C14_render_total", "C14_render_names", "C14_render_regions", "C14_render_located", "C14_render_multiple", "C14_render_leaves", "C14_render_ok_iff", "C14_grammar_tokens_ok", "Errors.render_total", "Errors.render_names_wire", "Errors.render_regions", "Errors.render_multiple"],
+THEOREM_MODULES = ["Hcl.Theorems.C14", "Hcl.Theorems.C14Render", "Hcl.Tie.PinsIo", "Hcl.Tie.PinsErrors", "Hcl.Tie.PinsLexer", "Hcl.Tie.PinsGrammar", "Hcl.Theorems.C14Stmts"]
+THEOREMS = {"Hcl.Theorems.C14Stmts": ["C14_statements_erase", "C14_statements_erase_tokens", "C14_statement_spans", "C14_statement_names", "C14_statement_spans_in_text", "C14_statements_ordered", "C14_identifier_span"],
+            "Hcl.Tie.PinsGrammar": ["Tie.PinsGrammar.pinGrammarFile"],
+            "Hcl.Tie.PinsLexer": ["Tie.PinsLexer.pinLexerNext", "Tie.PinsLexer.pinLexerChooseToken", "Tie.PinsLexer.pinLexerGetWhile", "Tie.PinsLexer.pinLexerInternalNext", "Tie.PinsLexer.pinLexerResolveIdentifier"],
+            "Hcl.Theorems.C14Render": ["C14_render_total", "C14_render_names", "C14_render_regions", "C14_render_located", "C14_render_multiple", "C14_render_leaves", "C14_render_ok_iff", "C14_grammar_tokens_ok", "Errors.render_total", "Errors.render_names_wire", "Errors.render_regions", "Errors.render_multiple"],
             "Hcl.Theorems.C14": ["C14_file", "C14_file_builtin", "C14_line", "C14_region", "C14_region_y86",
                                  "C14_preamble_ends_line", "C14_preamble_utf8",
                                  "Io.lookupIndex_spec", "Io.lineNumberAndBounds_user", "Io.showRegion_line",
                                  "Yo.validUtf8_boundary", "Yo.validUtf8_append", "C14_token_spans", "Lexer.lexStep_ok", "Lexer.handleConstant_pos",
                                  "C14_expression_spans", "C14_expression_extent", "Parser.parseTier_spans", "Parser.parseExpr_spans"],
             "Hcl.Tie.PinsErrors": ["Tie.PinsErrors.pinFormatForContents", "Tie.PinsErrors.pinFormatTokenList", "Tie.PinsErrors.pinListWithAnd"],
-            "Hcl.Tie.PinsIo": ["Tie.PinsIo.pinMarkNewlines", "Tie.PinsIo.pinFilename", "Tie.PinsIo.pinLineNumberAndBounds", "Tie.PinsIo.pinShowRegion"]}
+            "Hcl.Tie.PinsIo": ["Tie.PinsIo.pinMarkNewlines", "Tie.PinsIo.pinFilename", "Tie.PinsIo.pinLineNumberAndBounds", "Tie.PinsIo.pinShowRegion", "Tie.PinsIo.pinNewFromData", "Tie.PinsIo.pinNewFromFile"]}
 
 RULE = ("S-REGION: FileContents::new_from_data + show_region / line_number_and_bounds / range of the real code on small "
         "texts (ASCII and multi-byte lines, blank lines, LF / CRLF / bare CR, with and without final newline; preambles with "
